@@ -229,3 +229,20 @@ let oracle_file file implfile =
       print_newline ()
     end);
   close_in ic2
+
+(* ---- append: `driver append FILE` ----------------------------------------------------------------------
+   lines "<old cps>\t<new cps>"; prints the decision of MultiPattern::reparse(new, append = true) after a tick
+   as Spec/AppendSpec.update_allowed computes it from the atoms of the OLD text (1 = Update, 2 = Rescore; `?`
+   when the old text is not seg_simple, i.e. outside the parser model's segmentation rule) and whether the
+   old atoms are outside known finding K3 (last_fold_norm_ok). *)
+let append_file file =
+  iter_lines file (fun line ->
+    if line <> "" then
+      match String.split_on_char '\t' line with
+      | [ o; nw ] ->
+        let o = parse_cps o and nw = parse_cps nw in
+        if not (seg_simple nw) then print_endline "? ?" else begin
+          let oa = pattern_parse true crlf o CaseSmart NormSmart in
+          Printf.printf "%d %d\n" (if update_allowed oa then 1 else 2) (if last_fold_norm_ok oa then 1 else 0)
+        end
+      | _ -> failwith ("bad append line: " ^ line))
